@@ -5,6 +5,7 @@ import (
 	"context"
 	"encoding/json"
 	"fmt"
+	"net/http"
 	"os"
 	"path/filepath"
 	"sort"
@@ -36,6 +37,9 @@ type composeObj struct {
 }
 
 func (fs *filestore) CreateBucket(bucket string) error {
+	if err := fs.checkBucket(bucket); err != nil {
+		return err
+	}
 	bucketDir := filepath.Join(fs.gcsDir, bucket)
 	return os.MkdirAll(bucketDir, 0777)
 }
@@ -85,7 +89,35 @@ func (fs *filestore) GetMeta(baseUrl HttpBaseUrl, bucket string, filename string
 	return fs.ReadMeta(baseUrl, bucket, filename, fInfo)
 }
 
+// checkBucket refuses bucket names that are not one plain path segment ("", ".", "..", "a/b"): their
+// directory would be the store's own directory, lie outside it, or lie inside another bucket.
+func (fs *filestore) checkBucket(bucket string) error {
+	if bucket == "" || bucket == "." || bucket == ".." || strings.ContainsAny(bucket, "/\\\x00") {
+		return fmtErrorfCode(http.StatusBadRequest, "bucket name %q cannot be stored by the file store", bucket)
+	}
+	return nil
+}
+
+// checkStorable refuses object names this store cannot keep apart from other files: names whose path
+// is not a file of its own inside the bucket directory (".", "..", "../x", "a//b", a trailing "/")
+// would be written over the bucket directory or over another bucket's objects, and a name ending in
+// the sidecar extension over another object's metadata.
+func (fs *filestore) checkStorable(bucket string, filename string) error {
+	if err := fs.checkBucket(bucket); err != nil {
+		return err
+	}
+	root := filepath.Join(fs.gcsDir, bucket)
+	if filename == "" || fs.filename(bucket, filename) != root+string(os.PathSeparator)+filepath.FromSlash(filename) ||
+		strings.HasSuffix(filename, metaExtention) {
+		return fmtErrorfCode(http.StatusBadRequest, "object name %q cannot be stored by the file store", filename)
+	}
+	return nil
+}
+
 func (fs *filestore) Add(bucket string, filename string, contents []byte, meta *storage.Object) error {
+	if err := fs.checkStorable(bucket, filename); err != nil {
+		return err
+	}
 	f := fs.filename(bucket, filename)
 	if err := os.MkdirAll(filepath.Dir(f), 0777); err != nil {
 		return fmt.Errorf("could not create dirs for:  %s: %w", f, err)
